@@ -375,3 +375,5 @@ def run(report, repo):
   # set concurrently keeps its dirty mark (shared C10-R5)
   from sa.rules import c10  # pylint: disable=g-import-not-at-top
   report.guard(c10.r5_phase_state, report, repo, rule='C18-R5')
+  from sa.rules import extra4  # pylint: disable=g-import-not-at-top
+  report.guard(extra4.snapshot_is_pure, report, repo, 'C18-R6')
